@@ -415,3 +415,75 @@ func CheckLamportCausal(r *Run) []Problem {
 	}
 	return ps
 }
+
+// CheckPresence (C12): after quiescence every attached replica shows the same
+// presence map, containing exactly the attached clients (presence enabled), or
+// an empty one (presenceless document); and a presenceless document has no
+// presence anywhere in its log and in no response.
+func CheckPresence(r *Run) []Problem {
+	var ps []Problem
+	o := r.Out
+	attachedActors := map[string]bool{}
+	for i, att := range o.Attached {
+		if att {
+			attachedActors[o.Actors[i]] = true
+		}
+	}
+	if r.FirstNoPresence {
+		for _, row := range o.Log {
+			if row.Presence != "" {
+				ps = append(ps, Problem{Kind: "presenceless-stored-presence", Step: -1, Detail: fmt.Sprintf("serverSeq %d of %s carries presence %q", row.ServerSeq, row.Actor, row.Presence)})
+				break
+			}
+			if row.NOps == 0 {
+				ps = append(ps, Problem{Kind: "presenceless-stored-presence", Step: -1, Detail: fmt.Sprintf("serverSeq %d of %s is a presence-only row", row.ServerSeq, row.Actor)})
+				break
+			}
+		}
+		for i, t := range r.Trace {
+			if t.Resp == nil {
+				continue
+			}
+			for _, c := range t.Resp.Changes {
+				if c.PresenceChange() != nil {
+					ps = append(ps, Problem{Kind: "presenceless-returned-presence", Step: i, Detail: fmt.Sprintf("call %d returned presence in serverSeq %d", i, c.ServerSeq())})
+				}
+			}
+		}
+		for i, att := range o.Attached {
+			if att && len(o.Pres[i]) != 0 {
+				ps = append(ps, Problem{Kind: "presenceless-shows-presence", Step: -1, Detail: fmt.Sprintf("client %d shows %v on a presenceless document", i, o.Pres[i])})
+				break
+			}
+		}
+		return ps
+	}
+	ref := -1
+	for i, att := range o.Attached {
+		if !att {
+			continue
+		}
+		// exactly the attached actors
+		for a := range o.Pres[i] {
+			if !attachedActors[a] {
+				ps = append(ps, Problem{Kind: "presence-of-detached-actor", Step: -1, Detail: fmt.Sprintf("client %d still sees %s, which is not attached", i, a)})
+				return ps
+			}
+		}
+		for a := range attachedActors {
+			if _, ok := o.Pres[i][a]; !ok {
+				ps = append(ps, Problem{Kind: "presence-missing", Step: -1, Detail: fmt.Sprintf("client %d does not see attached actor %s (sees %v)", i, a, o.Pres[i])})
+				return ps
+			}
+		}
+		if ref < 0 {
+			ref = i
+			continue
+		}
+		if fmt.Sprint(o.Pres[i]) != fmt.Sprint(o.Pres[ref]) {
+			ps = append(ps, Problem{Kind: "presence-differs", Step: -1, Detail: fmt.Sprintf("client %d: %v  client %d: %v", ref, o.Pres[ref], i, o.Pres[i])})
+			return ps
+		}
+	}
+	return ps
+}
